@@ -183,6 +183,13 @@ Proof.
   destruct (bb_read_refines elt s c r2' v I E2) as (s' & R & A & I'). exists s'. subst r2'. auto.
 Qed.
 
+(** the regenerated block test of Hbitseek: another block is needed exactly when the target byte lies outside
+    [block_offset, block_offset + BITBUF_SIZE) *)
+Lemma new_block_spec b blk : negb (hbitseek_new_block b blk =? 0) = ((b <? blk) || (blk + BITBUF_SIZE <=? b)).
+Proof.
+  unfold hbitseek_new_block, BITBUF_SIZE. destruct (Z.ltb_spec b blk); destruct (Z.leb_spec (blk + 4096) b); reflexivity.
+Qed.
+
 (** * Hbitseek refines br_seek *)
 Lemma bb_seek_refines elt s byte_ bit r : bb_inv elt s -> br_seek elt byte_ bit = Some r ->
   exists s', bb_seek elt s byte_ bit = Some s' /\ bitr_sim r (babs elt s') /\ bb_inv elt s'.
@@ -195,6 +202,7 @@ Proof.
   unfold bb_seek. change BITNUM with 8. rewrite H11.
   destruct (Z.ltb_spec byte_ 0); [lia|]. destruct (Z.ltb_spec bit 0); [lia|].
   destruct (Z.ltb_spec (8 - 1) bit); [lia|]. destruct (Z.ltb_spec (zlen elt) byte_); [lia|]. cbn [orb]. cbv zeta.
+  rewrite new_block_spec.
   set (nb := (byte_ <? bb_block s) || (bb_block s + BITBUF_SIZE <=? byte_)).
   match goal with |- context [if nb then ?a else s] => set (s1 := if nb then a else s) end.
   assert (I1 : bb_inv elt (mk_bbuf (bb_pos s1) (bb_buf s1) (bb_bytep s1) (bb_bytez s1) (bb_block s1) (bb_read s1)
